@@ -200,8 +200,22 @@ func (r *Report) emit(verif string, writeEvidence, verbose bool) int {
 	// baseline update
 	if r.updBase {
 		// drop entries of the selected properties, then add what discharged now
+		verified := map[string]bool{}
+		for _, res := range r.results {
+			verified[res.Obl.Func] = true
+		}
 		for n, ps := range r.baseline {
 			if len(r.props) == 0 || intersects(ps, r.props) {
+				if r.partial {
+					// a run restricted with -only replaces the entries of the functions it verified, nothing else
+					fn := n
+					if i := strings.Index(n, "#"); i > 0 {
+						fn = n[:i]
+					}
+					if !verified[fn] && !verified[fn+"#errflow"] {
+						continue
+					}
+				}
 				delete(r.baseline, n)
 				delete(baselineHints, n)
 			}
